@@ -11,8 +11,10 @@ import (
 	"crypto/sha256"
 	"fmt"
 	"reflect"
+	"runtime"
 	"sort"
 	"strings"
+	"sync"
 	"testing"
 	"unsafe"
 
@@ -296,7 +298,7 @@ func (w *c13world) key() string {
 			d = append(d, fmt.Sprintf("%d/%s=%x", w.idx(k.PeerID), k.MsgID, h[:4]))
 		}
 		sort.Strings(d)
-		parts = append(parts, fmt.Sprintf("m%d{%s}%s", i, strings.Join(d, ","), c13otherState(c.srv)))
+		parts = append(parts, fmt.Sprintf("m%d{%s}%s%s", i, strings.Join(d, ","), c13otherState(c.srv), c13compState(c)))
 	}
 	var dl []string
 	for _, d := range w.deliv {
@@ -486,6 +488,45 @@ func c13otherState(srv *server) string {
 		return ""
 	}
 	return "+" + strings.Join(out, ";")
+}
+
+// c13compState renders the state-carrying fields of the Component itself (other than the allow-list, the peers and the
+// server, which is rendered separately): empty for the unchanged code.
+func c13compState(c *Component) string {
+	sv := reflect.ValueOf(c).Elem()
+	var out []string
+	for i := 0; i < sv.NumField(); i++ {
+		name := sv.Type().Field(i).Name
+		if name == "allowedMsgIDs" || name == "peers" || name == "srv" || name == "secret" {
+			continue
+		}
+		f := sv.Field(i)
+		f = reflect.NewAt(f.Type(), unsafe.Pointer(f.UnsafeAddr())).Elem()
+		if f.Type().PkgPath() == "sync" && f.Type().Name() == "Map" {
+			var e []string
+			f.Addr().Interface().(*sync.Map).Range(func(k, v any) bool { e = append(e, fmt.Sprintf("%v=%v", k, v)); return true })
+			sort.Strings(e)
+			out = append(out, name+"{"+strings.Join(e, ",")+"}")
+			continue
+		}
+		switch f.Kind() {
+		case reflect.Map:
+			var e []string
+			it := f.MapRange()
+			for it.Next() {
+				e = append(e, fmt.Sprintf("%v=%v", it.Key().Interface(), it.Value().Interface()))
+			}
+			sort.Strings(e)
+			out = append(out, name+"{"+strings.Join(e, ",")+"}")
+		case reflect.Slice, reflect.Bool, reflect.Int, reflect.Int8, reflect.Int16, reflect.Int32, reflect.Int64, reflect.Uint, reflect.Uint8, reflect.Uint16,
+			reflect.Uint32, reflect.Uint64, reflect.String, reflect.Array:
+			out = append(out, fmt.Sprintf("%s=%v", name, f.Interface()))
+		}
+	}
+	if len(out) == 0 {
+		return ""
+	}
+	return "+C:" + strings.Join(out, ";")
 }
 
 // c13copyState copies the mutable state of a server into a fresh one generically (by reflection over ALL fields, so
@@ -756,69 +797,110 @@ func TestVerifC13(t *testing.T) {
 		worlds[0] = w0
 		frontier := []int32{0}
 		trans, delivered, capped := 0, 0, false
+		type succ struct {
+			ev       c13event
+			cs       c13case
+			w2       *c13world
+			viol     []c13viol
+			key      string
+			mismatch bool
+		}
+		// expand computes every successor of one node. Successors are computed by replaying the WHOLE history on fresh
+		// real components: state a change keeps anywhere (component fields, closures of the verifier, ...) is carried
+		// along truthfully, which a field-wise copy of the servers cannot guarantee (the independent change C13/b of
+		// round four kept a memo on the Component, outside the server the copy knew about). The field-wise clone stays
+		// as a cross-check on the first successors of every node. Worlds are independent, so nodes expand in parallel.
+		expand := func(ni int32, w *c13world, xcheck bool) []succ {
+			h := hist(ni)
+			var out []succ
+			for k, ev := range w.menu(true) {
+				cs := c13case{c.n, c.faulty, append(append([]c13event(nil), h...), ev)}
+				w2, viol := c13replay(t, cs)
+				sc := succ{ev: ev, cs: cs, w2: w2, viol: viol, key: w2.key()}
+				if xcheck && k < 2 {
+					w3 := w.clone(t)
+					w3.apply(ev)
+					sc.mismatch = w3.key() != sc.key
+				}
+				out = append(out, sc)
+			}
+			return out
+		}
+		workers := runtime.GOMAXPROCS(0)
 	bfs:
 		for len(frontier) > 0 {
 			var next []int32
-			for _, ni := range frontier {
-				if nodes[ni].depth >= c.depth {
-					continue
-				}
+			for lo := 0; lo < len(frontier); lo += 4 * workers {
+				hi := min(lo+4*workers, len(frontier))
 				if r.Expired() || len(nodes) >= c.capSt {
 					capped = true
 					break bfs
 				}
-				h := hist(ni)
-				w := worlds[ni]
-				delete(worlds, ni)
-				for _, ev := range w.menu(true) {
-					cs := c13case{c.n, c.faulty, append(append([]c13event(nil), h...), ev)}
-					w2 := w.clone(t)
-					w2.apply(ev)
-					viol := w2.check()
-					if xchecks < 300 || trans%64 == 0 {
-						xchecks++
-						if w3, _ := c13replay(t, cs); w3.key() != w2.key() {
+				chunk := frontier[lo:hi]
+				res := make([][]succ, len(chunk))
+				var wg sync.WaitGroup
+				sem := make(chan struct{}, workers)
+				for ci, ni := range chunk {
+					if nodes[ni].depth >= c.depth {
+						continue
+					}
+					w := worlds[ni]
+					delete(worlds, ni)
+					wg.Add(1)
+					sem <- struct{}{}
+					go func(ci int, ni int32, w *c13world, xc bool) {
+						defer wg.Done()
+						defer func() { <-sem }()
+						res[ci] = expand(ni, w, xc)
+					}(ci, ni, w, xchecks < 300 || int(ni)%16 == 0)
+					xchecks++
+				}
+				wg.Wait()
+				for ci, ni := range chunk {
+					for _, sc := range res[ci] {
+						cs, w2, viol := sc.cs, sc.w2, sc.viol
+						if sc.mismatch {
 							r.Note("HARNESS: clone+apply differs from replay for " + fmt.Sprint(cs.Events))
 							r.Count("clone_mismatch", 1)
 						}
-					}
-					trans++
-					r.Steps(1)
-					for _, v := range viol {
-						// confirm: identical verdict on 3 further replays
-						ok := true
-						for k := 0; k < 3; k++ {
-							_, v2 := c13replay(t, cs)
-							f := false
-							for _, y := range v2 {
-								f = f || y.sig == v.sig
+						trans++
+						r.Steps(1)
+						for _, v := range viol {
+							// confirm: identical verdict on 3 further replays
+							ok := true
+							for k := 0; k < 3; k++ {
+								_, v2 := c13replay(t, cs)
+								f := false
+								for _, y := range v2 {
+									f = f || y.sig == v.sig
+								}
+								ok = ok && f
 							}
-							ok = ok && f
+							if !ok {
+								r.Unconfirmed(v.sig)
+								continue
+							}
+							var tr []string
+							for _, e := range cs.Events {
+								tr = append(tr, e.String())
+							}
+							r.Violation(fmt.Sprintf("%s n=%d", v.sig, c.n), fmt.Sprintf("%s [n=%d faulty=%d trace: %s]", v.desc, c.n, c.faulty, strings.Join(tr, " | ")), cs)
 						}
-						if !ok {
-							r.Unconfirmed(v.sig)
+						k := sc.key
+						if seen[k] {
 							continue
 						}
-						var tr []string
-						for _, e := range cs.Events {
-							tr = append(tr, e.String())
+						seen[k] = true
+						if len(w2.deliv) > 0 {
+							delivered++
 						}
-						r.Violation(fmt.Sprintf("%s n=%d", v.sig, c.n), fmt.Sprintf("%s [n=%d faulty=%d trace: %s]", v.desc, c.n, c.faulty, strings.Join(tr, " | ")), cs)
+						if len(viol) > 0 {
+							continue // do not expand beyond a violating state
+						}
+						nodes = append(nodes, node{parent: ni, ev: sc.ev, depth: nodes[ni].depth + 1})
+						next = append(next, int32(len(nodes)-1))
+						worlds[int32(len(nodes)-1)] = w2
 					}
-					k := w2.key()
-					if seen[k] {
-						continue
-					}
-					seen[k] = true
-					if len(w2.deliv) > 0 {
-						delivered++
-					}
-					if len(viol) > 0 {
-						continue // do not expand beyond a violating state
-					}
-					nodes = append(nodes, node{parent: ni, ev: ev, depth: nodes[ni].depth + 1})
-					next = append(next, int32(len(nodes)-1))
-					worlds[int32(len(nodes)-1)] = w2
 				}
 			}
 			frontier = next
